@@ -1280,7 +1280,8 @@ def params_from_backend(obs_length=300,
     df = chan_bw / fftlength
 
     dt = int_factor / df
-    tchans = int(float(obs_length) / dt)
+    # Double precision for a single-precision duration; a Quantity stays a Quantity
+    tchans = int(obs_length * np.float64(1) / dt)
 
     param_dict = {
         'tchans': tchans,
